@@ -17,15 +17,16 @@ def gen_cases(tier, seed, ctx):
     W = U.Writer(ctx)
     cases = []
     scen = []
-    prs = U.pairs(rnd, tier, big=(tier == 'thorough'))
+    prs = U.pairs(rnd, tier, big=True)
     for tag, A, B in prs:
-        if tier == 'quick' and tag.split('/')[0] not in ('edit', 'absent', 'duplicates', 'same', 'adjacent-dup', 'separators'): continue
+        if tier == 'quick' and tag.split('/')[0] not in ('edit', 'absent', 'duplicates', 'same', 'adjacent-dup', 'separators', 'big'): continue
         tg = U.targets(rnd, A, B)
         for tname in (['absent', 'old-A', 'partial'] if tier == 'quick' else list(tg)):
             if tname not in tg: continue
             for lim, fr in ([(1, 'b7'), (-1, '-'), (2, 'b64')] if tier == 'quick' else [(1, 'b7'), (-1, '-'), (2, 'b64'), (3, 'b1'), (-1, 'b16384')]):
                 if tag == 'big': fr = 'b16384'
-                if rnd.random() < (0.45 if tier == 'quick' else 1.0):
+                if tag == 'big' and tier == 'quick' and (tname != 'absent' or lim != -1): continue
+                if tag == 'big' or rnd.random() < (0.45 if tier == 'quick' else 1.0):
                     scen.append((tag, A, B.build(), tname, tg[tname], lim, fr))
     for tag, A, Bb, tname, tb, lim, fr in scen:
         base = run_k0(ctx, W.op(A, Bb, tb, lim, fr))
